@@ -21,7 +21,9 @@ RULE = ("random charts of the five games (empty hold/SV/sample lists included, t
         "mapsets (1-3 charts; StepMania offset None / 0 / negative / fractional); rates from the exact family {1/4,1/2,1,2,4,8} (equality demanded) "
         "and the rounded family {1.1,0.75,1.5,0.9,1.25} (1e-9 relative); kinds: rate, rate(1), rate(a).rate(b) vs rate(a*b), osu charts with their "
         "file-level fields (preview point incl. the marker -1, 0-3 sample events, all other attributes) before / after on the original and on the copy, "
-        "StepMania mapsets with offset / sample window / other attributes likewise, write->read of the rated chart (osu, Quaver); "
+        "StepMania mapsets with offset / sample window / other attributes likewise, write->read of the rated chart (osu, Quaver: < 1 ms; "
+        "StepMania mapsets and BMS charts on the 1/4-beat grid of one tempo at a measure line with power-of-two rates: hits, holds and tempo "
+        "points read back exactly, half of the originals written / asked for their timing map once before rate(); an exception counts as failure); "
         "non-trivial = chart has >= 2 rows in some list and rate != 1")
 ASSUMPTIONS = [
     "exact stream: dyadic values and power-of-two rates, where binary64 division/multiplication is exact; rounded stream: tolerance 1e-9 relative",
@@ -66,9 +68,56 @@ EXACT = [0.25, 0.5, 1.0, 2.0, 4.0, 8.0]
 ROUNDED = [1.1, 0.75, 1.5, 0.9, 1.25]
 
 
+def _grid_chart(rng, game, off):
+    """chart on the 1/4-beat grid of ONE tempo (120 bpm at [off], a measure line): 125 ms steps; no two objects of a column touch"""
+    cls = M.map_class(game)
+    m = cls()
+    spec = {"game": game, "lists": {}}
+    maxcol = 3 if game == "sm" else 6
+    used = []
+    for name, lst in m.objs.items():
+        props = lst._item_class()._props
+        rows = []
+        if name == "bpms":
+            r = {k: M.rand_val(rng, k, v[0]) for k, v in props.items()}
+            r.update({"offset": off, "bpm": 120.0, "metronome": 4.0})
+            rows.append(r)
+        elif name in ("hits", "holds"):
+            for _ in range(rng.choice([1, 2, 3, 5] if name == "hits" else [0, 1, 2, 3])):
+                r = {k: M.rand_val(rng, k, v[0]) for k, v in props.items()}
+                for _try in range(40):
+                    r["offset"], r["column"] = off + rng.randint(0, 47) * 125.0, rng.randint(0, maxcol)
+                    ln = rng.choice([125.0, 250.0, 500.0]) if "length" in r else 0.0
+                    a, b = r["offset"], r["offset"] + ln
+                    if all(c != r["column"] or b < s0 or a > e0 for (c, s0, e0) in used):
+                        if "length" in r:
+                            r["length"] = ln
+                        used.append((r["column"], a, b))
+                        rows.append(r)
+                        break
+        spec["lists"][name] = {"rows": rows, "labels": "default"}
+    return spec
+
+
 def generate(rng, tier):
     n = 30 if tier == "quick" else 300
     cases = []
+    # write survival on the row grid (StepMania mapsets, BMS charts): one tempo at a measure line, 1/4-beat positions, power-of-two
+    # rates, so that write -> read must give the rated times exactly; half of the originals are written (or asked for their
+    # timing map) once BEFORE rate(), as a caller that saves the original first does
+    for _ in range(max(12, n // 2)):
+        off = rng.choice([0.0, 0.0, 500.0, 2000.0])
+        shared = _grid_chart(rng, "sm", off)
+        maps = [shared] + [_grid_chart(rng, "sm", off) for _ in range(rng.choice([0, 1]))]
+        for mp in maps[1:]:
+            mp["lists"]["bpms"] = shared["lists"]["bpms"]
+        cases.append({"kind": "mapset", "game": "sm", "maps": maps, "by": rng.choice([0.5, 2.0, 4.0, 0.25]), "exact": True,
+                      "grid": True, "pre": rng.choice(["none", "write", "timing_map", "write"]),
+                      "sm": {"offset": off, "sample_start": rng.choice([0.0, 10000.0]), "sample_length": 10000.0}})
+    for _ in range(max(8, n // 3)):
+        cases.append({"kind": "write", "game": "bms", "map": _grid_chart(rng, "bms", 0.0), "by": rng.choice([0.5, 2.0, 4.0]),
+                      "by2": 1.0, "exact": True, "grid": True, "pre": rng.choice(["none", "write", "timing_map"]),
+                      "preview": 0, "samples": [], "sm": {}})
     for game in M.GAMES:
         for _ in range(n):
             exact = rng.random() < 0.7
@@ -144,6 +193,8 @@ def execute(case):
         if case["game"] == "sm":
             ms.offset, ms.sample_start, ms.sample_length = case["sm"]["offset"], case["sm"]["sample_start"], case["sm"]["sample_length"]
             ms.title, ms.selectable = "t", False
+        if case.get("grid"):
+            _pre(case, ms, maps)
         fb = [_frames(m, it) for m in maps]
         osu_src = [_osu_file(m, it) for m in maps] if case["game"] == "osu" and "preview" in case else None
         if case["game"] == "sm":
@@ -160,10 +211,14 @@ def execute(case):
                                       "fb": fb[k], "fa": fa[k]})
         if case["game"] == "sm":
             out["checks"].append({"t": "sm", "src": src, "out": _sm_file(r, it), "after": _sm_file(ms, it), "fb": fb, "fa": fa})
+            if case.get("grid"):
+                out["write"] = _grid_write_read("sm", r)
         else:
             out["checks"].append({"t": "set", "src": src, "out": [_ul(m, it) for m in r.maps], "fb": fb, "fa": fa})
         return out
     m = _prep(case, M.build_map(case["map"]))
+    if case.get("grid"):
+        _pre(case, None, [m])
     ub, fb = _ul(m, it), _frames(m, it)
     kind = case["kind"]
     if kind in ("rate", "fields", "write"):
@@ -177,6 +232,8 @@ def execute(case):
             out["checks"].append({"t": "rate", "src": ub, "out": _ul(m2, it), "sb": fb, "sa": _frames(m, it)})
         if kind == "write" and case["game"] in ("osu", "qua"):
             out["write"] = _write_read(case["game"], m2)
+        if kind == "write" and case.get("grid"):
+            out["write"] = _grid_write_read(case["game"], m2)
     elif kind == "one":
         m2 = m.rate(1.0)
         out["checks"].append({"t": "same", "a": _ul(m2, it), "b": ub})
@@ -190,6 +247,52 @@ def execute(case):
             out["checks"].append({"t": "same", "a": [M.snapshot_list(x.samples, it)], "b": [M.snapshot_list(y.samples, it)]})
             out["checks"].append({"t": "preview", "by": a * b, "before": F.frac_json(Fr(m.preview_time)), "after": F.frac_json(Fr(x.preview_time))})
     return out
+
+
+def _pre(case, ms, maps):
+    """what a caller that saves / inspects the original first does (must not influence the rated copy)"""
+    if case.get("pre") == "write":
+        if ms is not None:
+            ms.write()
+        else:
+            for m in maps:
+                m.write()
+    elif case.get("pre") == "timing_map":
+        for m in maps:
+            m.bpms.to_timing_map()
+
+
+GRID_TOL = 1e-6
+
+
+def _grid_write_read(game, rated):
+    """rated StepMania mapset / BMS chart -> text -> reamber's reader: hits, holds (start, length) and tempo points of every
+    chart at the rated in-memory values (grid charts: exact up to GRID_TOL); an exception while writing or reading fails"""
+    try:
+        if game == "sm":
+            from reamber.sm.SMMapSet import SMMapSet
+            back = SMMapSet.read(rated.write()).maps
+            want = rated.maps
+        else:
+            from reamber.bms.BMSMap import BMSMap
+            txt = rated.write()
+            back = [BMSMap.read(txt.decode("ascii").split("\n") if isinstance(txt, bytes) else txt)]
+            want = [rated]
+    except Exception as e:      # the rated chart could not be written / read back
+        return {"worst": float("inf"), "counts_ok": False, "tol": GRID_TOL, "exc": f"{type(e).__name__}: {e}"[:200]}
+    worst, counts_ok = 0.0, len(back) == len(want)
+    for a, b in zip(want, back):
+        pairs = [(sorted(zip(a.hits.column.tolist(), a.hits.offset.tolist())), sorted(zip(b.hits.column.tolist(), b.hits.offset.tolist()))),
+                 (sorted(zip(a.holds.column.tolist(), a.holds.offset.tolist(), a.holds.length.tolist())),
+                  sorted(zip(b.holds.column.tolist(), b.holds.offset.tolist(), b.holds.length.tolist()))),
+                 (sorted(zip(a.bpms.offset.tolist(), a.bpms.bpm.tolist())), sorted(zip(b.bpms.offset.tolist(), b.bpms.bpm.tolist())))]
+        for x, y in pairs:
+            if len(x) != len(y):
+                counts_ok = False
+                continue
+            for u, v in zip(x, y):
+                worst = max([worst] + [abs(float(p) - float(q)) for p, q in zip(u, v)])
+    return {"worst": worst, "counts_ok": counts_ok, "tol": GRID_TOL}
 
 
 def _write_read(game, m2):
@@ -274,7 +377,7 @@ def py_oracle(case, out):
     if out.get("types_ok") is False:
         return False
     w = out.get("write")
-    if w is not None and (not w["counts_ok"] or w["worst"] >= 1.0):
+    if w is not None and (not w["counts_ok"] or w["worst"] >= w.get("tol", 1.0) or "exc" in w):
         return False
     return True
 
